@@ -17,6 +17,7 @@ Correspondence: every scenario calls the real estimator (overlay build of /repo'
   run/spec `c14.normalize`, `c14.spec_stochastic` -> `normalize(matrix)` itself: stored entries, rows of L1 norm 1 or null
 Theorems (SkNet/Properties/C14.lean) are about the same model for every graph and every number of rounds.
 """
+import copy
 import json
 import os
 import sys
@@ -274,6 +275,20 @@ def _arr(x):
     return None if x is None else np.asarray(x, dtype=float)
 
 
+REUSED = {'count': 0}
+
+
+def _same_object_state(x, y):
+    if isinstance(x, np.ndarray):
+        return isinstance(y, np.ndarray) and x.dtype == y.dtype and x.shape == y.shape and \
+            np.array_equal(x, y, equal_nan=(x.dtype.kind == 'f'))
+    if isinstance(x, dict):
+        return list(x.keys()) == list(y.keys()) and all(_same_object_state(x[k], y[k]) for k in x)
+    if isinstance(x, list):
+        return len(x) == len(y) and all(_same_object_state(a, b) for a, b in zip(x, y))
+    return type(x) is type(y) and (x == y or (x != x and y != y))
+
+
 def run_impl(sc, n_iter=None):
     """Call the estimator through `fit_predict` (after a first fit on the same object when `prefit` is given).
     Returns ('ok', values_, values_row_|None, values_col_|None, (fit_predict, predict(), predict(columns=True)))
@@ -291,7 +306,16 @@ def run_impl(sc, n_iter=None):
                 except (ValueError, IndexError, TypeError):
                     pass
             mat = container_of(sc_matrix(sc), sc.get('container', 'csr'))
-            fp = est.fit_predict(mat, **_kwargs(sc))
+            kw = _kwargs(sc)
+            ref = copy.deepcopy(kw)
+            fp = est.fit_predict(mat, **kw)
+            if not all(_same_object_state(kw[k], ref[k]) for k in kw):
+                # the call wrote into the temperatures it was given: the caller still holds these objects, so the answer that
+                # is judged (against the temperatures he passed) is the one of a second estimator fitted with the same objects
+                REUSED['count'] += 1
+                sc['history'] = 'the first fit modified the temperatures object; judged: a second fit given the same object'
+                est = Diffusion(n_iter=n_iter, damping_factor=sc['alpha']) if sc['algo'] == 'diffusion' else Dirichlet(n_iter=n_iter)
+                fp = est.fit_predict(mat, **kw)
             v = _arr(est.values_)
             r = _arr(getattr(est, 'values_row_', None))
             c = _arr(getattr(est, 'values_col_', None))
@@ -1196,7 +1220,10 @@ def cases_of_desc(desc, rng):
 
 
 def run(ctx):
-    evaluate(ctx, build_cases(ctx))
+    REUSED['count'] = 0
+    cases = build_cases(ctx)
+    ctx.count('fits-that-modified-their-temperatures-object', REUSED['count'])
+    evaluate(ctx, cases)
 
 
 # ----------------------------------------------------------------------------------------------
